@@ -107,7 +107,9 @@ def generate_state_only(seed):
     for m in mods:
         nv = r.randrange(1, 3)
         names = ["total", "count"][:nv]
-        lines = ["from stationeers_pytrapic.symbols import *", "", f"{names[0]} = {r.choice(['d0.Setting', 'd2.Charge', '5'])}"]
+        # run-time initialisation at the library's top level, sometimes with several temporaries (more than its functions need)
+        init = r.choice(["d0.Setting", "d2.Charge", "5", "(d0.Setting + d2.Charge) * (d1.On + 3)", "((d0.Setting + 1) * (d2.Charge + 2)) - ((d1.On + 3) * (d3.Ratio + 4))"])
+        lines = ["from stationeers_pytrapic.symbols import *", "", f"{names[0]} = {init}"]
         if nv > 1:
             lines.append(f"{names[1]} = {names[0]} * 2")
             lines.append(f"d1.Mode = {names[1]}")
